@@ -34,8 +34,8 @@ func hClone(t *http.Transport) *http.Transport { return &http.Transport{} }
 func H20e() {
 	strict := vBool()
 	strictHttp.StrictMode = vBool()
-	vTag("scheme")
-	scheme := vString(vLen(0, vParam("sch", 5)))
+	// concrete spellings: the refusal formats the endpoint with url.URL.String(), which forks on every symbolic byte
+	scheme := []string{"https", "HTTPS", "Https", "http", "HTTP", "", "ftp", "httpss", "ttps", "https ", "ws"}[vChoice(11)]
 	lower := []byte(scheme)
 	for i := range lower {
 		if lower[i] >= 'A' && lower[i] <= 'Z' {
@@ -65,7 +65,7 @@ func H20e() {
 
 func H20e_twin() {
 	rp := NewRelyingParty(nil, nil, nil, nil, 5*time.Second, nil, true)
-	rp.RequestRFC003AccessToken(context.Background(), "grant", url.URL{Scheme: vString(5), Host: "as.nuts.nl"})
+	rp.RequestRFC003AccessToken(context.Background(), "grant", url.URL{Scheme: []string{"https", "http"}[vChoice(2)], Host: "as.nuts.nl"})
 	if len(hWire) == 1 {
 		vAssert(false, "H20e_twin.reach: reachable")
 	}
